@@ -277,8 +277,10 @@ func Target(t *rapid.T, s ref.Schema, o *WireOpts, inUnion bool) (ts spec.TypeSp
 			}
 			fs := spec.FieldSpec{Go: fmt.Sprintf("F%d", i), JSON: f.Name, T: ft}
 			if o.Writable && f.Type.Kind == "union" {
-				if sh, _ := UnionShape(f.Type); sh == "nullable" && ft.K != "ptr" && !ft.IsRegistered() {
-					// a plain value under a union: with omitempty its zero is the null
+				if sh, _ := UnionShape(f.Type); sh == "nullable" && !ft.IsRegistered() {
+					// a plain value under a union: with omitempty its zero is the null;
+					// a pointer with omitempty: only the nil pointer is the null, a
+					// pointer to a zero value is a value
 					if rapid.Bool().Draw(t, "omitempty") {
 						fs.Opts = []string{"omitempty"}
 					}
